@@ -552,7 +552,8 @@ impl EmitScope {
     }
 
     /// A bare label that is not visible in the current weave may belong to the
-    /// enclosing knot's own weave (read from one of its stitches): `knot.label`.
+    /// enclosing knot's own weave (read from one of its stitches): `knot.label`,
+    /// or to the weave of another stitch of the same knot: `knot.stitch.label`.
     fn resolve_knot_level_label<'a>(
         &self,
         label: &str,
@@ -565,9 +566,28 @@ impl EmitScope {
             return None;
         }
         let knot = self.top_flow_name.as_ref()?;
-        context
+        if let Some(path) = context
             .qualified_choice_labels
             .get(&format!("{knot}.{label}"))
+        {
+            return Some(path);
+        }
+
+        // Only an unambiguous match counts: the label must be defined in exactly one stitch.
+        let prefix = format!("{knot}.");
+        let suffix = format!(".{label}");
+        let mut in_stitches = context
+            .qualified_choice_labels
+            .range(prefix.clone()..)
+            .take_while(|(key, _)| key.starts_with(&prefix))
+            .filter(|(key, _)| {
+                key[prefix.len()..]
+                    .strip_suffix(&suffix)
+                    .is_some_and(|stitch| !stitch.is_empty() && !stitch.contains('.'))
+            })
+            .map(|(_, path)| path);
+        let first = in_stitches.next()?;
+        in_stitches.next().is_none().then_some(first)
     }
 
     fn resolve_qualified_choice_label(
